@@ -106,6 +106,13 @@ def programs(tier: str):
             disp = [dict(okb) for _ in range(k)]
             disp[pos] = {"enter": "ok", "exit": "ok", "yields": "one"}
             yield {"block": {"kind": "ascope", "supply": [], "disp": disp, "pause": False, "ending": "return"}, "cancels": 0}
+    # ONE disposable yielding a dozen states of distinct types (alone, next to others)
+    from hv.ctxkit import WIDE as _WIDE
+
+    for others in (0, 1, 3):
+        for ending in ("return", "raise"):
+            disp = [{"enter": "ok", "exit": "ok", "yields": "many"}] + [{"enter": "ok", "exit": "ok", "yields": "none"} for _ in range(others)]
+            yield {"block": {"kind": "ascope", "supply": [], "disp": disp, "pause": False, "ending": ending}, "cancels": 0, "probe_types": ["A", "R", *_WIDE]}
     # scope names containing formatting characters (the library logs around entering / leaving)
     for suffix in (" 100%", " %s %(x)s"):
         for k in (1, 2):
